@@ -19,10 +19,11 @@ import (
 //	          2 EvExit (cancels the publish context; sid is 0)
 //	    decided by run_publish AND spec_publish.
 //	F notifier_registry <id> <nops> (<op> <key> <target>)*nops | <outs, concatenated>
-//	    op: 0 Subscribe  1 Unsubscribe  -> out 1 (ok) / 0 (panicked)
+//	    op: 0 Subscribe (no context)  4 SubscribeContext(live)  5 SubscribeContext(already cancelled)
+//	        1 Unsubscribe               -> out 1 (ok) / 0 (panicked)
 //	        2 Publish                   -> out <count> <sorted target ids that received>
 //	        3 Lookup (n.subscribers[key] read in-package) -> out <count> <sorted target ids>
-//	    decided by subscribe / unsubscribe / lookup.
+//	    decided by subscribe_ctx / unsubscribe_ctx / publish_ready / lookup.
 
 const (
 	c15VInt = iota
@@ -504,6 +505,10 @@ func c15RegistryCase(h *hctx, id int) {
 		f()
 		return true
 	}
+	liveCtx, stopLive := context.WithCancel(context.Background())
+	defer stopLive()
+	deadCtx, stopDead := context.WithCancel(context.Background())
+	stopDead()
 	have := map[[2]int]bool{} // generator-side shadow, only used to bias the choice of (key, target)
 	for k := 0; k < nops; k++ {
 		ki, ti := h.rng.Intn(2), h.rng.Intn(3)
@@ -524,14 +529,25 @@ func c15RegistryCase(h *hctx, id int) {
 		switch {
 		case r < 40: // Subscribe
 			before := [][]int{c15Snapshot(&n, keys[0], ids), c15Snapshot(&n, keys[1], ids)}
+			// the context the call carries: none, live, or already cancelled (a subscription registered with a
+			// cancelled context receives nothing; a rejected duplicate must not replace the registered context)
+			opc := []int{0, 4, 5}[h.rng.Intn(3)]
 			ok := try(func() {
-				if h.rng.Intn(2) == 0 {
+				switch opc {
+				case 0:
 					n.Subscribe(keys[ki], targets[ti])
-				} else {
-					n.SubscribeContext(context.Background(), keys[ki], targets[ti])
+				case 4:
+					if h.rng.Intn(2) == 0 {
+						n.SubscribeContext(context.Background(), keys[ki], targets[ti])
+					} else {
+						n.SubscribeContext(liveCtx, keys[ki], targets[ti])
+					}
+				default:
+					n.SubscribeContext(deadCtx, keys[ki], targets[ti])
 				}
 			})
-			ops = append(ops, 0, ki, ti)
+			h.count(fmt.Sprintf("sub_ctx_kind_%d", opc), 1)
+			ops = append(ops, opc, ki, ti)
 			outs = append(outs, c15b(ok))
 			if !ok {
 				h.count("sub_panic", 1)
